@@ -13,10 +13,11 @@ Has(x) == x # Null
 MinTeeth == 10
 
 \* worm gear / wheel data: pressure angle (deg) |-> maximum helix angle (deg), Lewis factor
-WormData == [ a145 |-> [alpha |-> "14.5", maxHelix |-> "16", lewis |-> "0.1"],
-              a20  |-> [alpha |-> "20",   maxHelix |-> "25", lewis |-> "0.125"],
-              a25  |-> [alpha |-> "25",   maxHelix |-> "35", lewis |-> "0.15"],
-              a30  |-> [alpha |-> "30",   maxHelix |-> "45", lewis |-> "0.175"] ]
+\* cos of the pressure angle to 50 digits (cos 30 deg = sqrt(3)/2)
+WormData == [ a145 |-> [alpha |-> "14.5", maxHelix |-> "16", lewis |-> "0.1",   cos |-> "0.96814764037810777496671529862958687642953818240952"],
+              a20  |-> [alpha |-> "20",   maxHelix |-> "25", lewis |-> "0.125", cos |-> "0.93969262078590838405410927732473146993620813426446"],
+              a25  |-> [alpha |-> "25",   maxHelix |-> "35", lewis |-> "0.15",  cos |-> "0.90630778703664996324255265675431698326771262517586"],
+              a30  |-> [alpha |-> "30",   maxHelix |-> "45", lewis |-> "0.175", cos |-> "0.86602540378443864676372317075293618347140262690519"] ]
 WormRows == { WormData[k] : k \in DOMAIN WormData }
 Deg(r) == Conv(r, "Angle", "rad", "deg")          \* radians -> degrees
 Rad(d) == Conv(d, "Angle", "deg", "rad")
